@@ -3,7 +3,7 @@
 # Applies a behaviour-preserving change to /repo, runs the quick checks, restores /repo.
 # Any VIOLATION is a false alarm of the machinery (or the change is not as benign as claimed).
 D=$1; shift
-IDS=${@:-"C01 C02 C03 C04 C05 C06 C07 C08 C09 C10 C11 C12 C13 C14 C15 C18"}
+IDS=${@:-"C01 C02 C03 C04 C05 C06 C07 C08 C09 C10 C11 C12 C13 C14 C15 C18 C19"}
 cd /repo && git apply --check $D/patch.diff || { echo "patch does not apply: $D"; exit 3; }
 git apply $D/patch.diff
 bad=0
